@@ -31,9 +31,26 @@ What a model looks like
       / max near a tie, no argument near a domain edge or pole, no heavy cancellation; arguments are wrapped into
       the function's domain, which adds nesting) and the finished model must pass a perturbation test (all outputs
       stable under relative 1e-12 noise on the literals).
-    * exponents and degrees mention only numbers and variables that carry an initial_value in the same component,
-      unless everything in the equation is dimensionless: Analyser::analyseEquationUnits dereferences a null AST child
-      (SIGSEGV) otherwise (see ExprGen.__init__); that is a defect of its own, outside C03.
+    * references to SCALED variables (a <ci> whose units differ in scale from those of its class' primary variable, so
+      that the analyser must insert a factor) are a first-class feature: they are preferred as leaves everywhere, and
+      every model gets extra equations that place one exactly at requested syntactic positions (generate(positions=
+      [...]) over BOOST_KINDS: operands of every operator family, unary minus / plus, function arguments, power base
+      and exponent, degree of root, logbase of log, piecewise value / condition / otherwise, bare right-hand side,
+      nested under a unary minus inside a function, rates on right-hand sides, initial values given by reference; NLA
+      equations get a scaled known quantity on both sides; scaled views also of states and computed variables).
+      `scaled_positions(desc, res, primaries)` counts them per position kind (POSITION_KINDS) on the final text;
+      meta["scaled_positions"], meta["positions_requested"], meta["positions_boosted"].
+    * exponents, degrees and logarithm bases hold arbitrary variables only in equations whose quantities all have a
+      dimensionless units map (dimensionless, percent, permille, dozen: still scaled against each other); elsewhere
+      they mention only numbers and variables with a NUMERIC initial_value in the same component:
+      Analyser::analyseEquationUnits dereferences a null AST child (SIGSEGV) when an exponent's value is unknown and a
+      later operand is not dimensionless, and Analyser::powerValue calls std::stod on an initial_value that is a
+      variable name (uncaught std::invalid_argument); both are defects of their own, outside C03.
+    * initial values are sometimes given as the NAME of a constant of the same component declared before it (also for
+      the initial value of a state that sits on a scaled equivalent variable of another component).
+    * unsafe models additionally plant: an initial value naming a variable declared later / naming a scaled view, the
+      rate of one state inside the ODE of another, units with a prefix and an exponent on one unit child (family
+      "volume", PLANT_FAMILIES), next to the mis-printed expression shapes.
     * shape safety: with `mdl` (path of the extracted Coq model `vf.ocaml_driver("gen")`) every right-hand side is
       converted to the AST exactly as Analyser::analyseNode + scaleEquationAst build it (`model_equation_asts`) and asked
       for safety in both profiles; in a SAFE model (default) unsafe candidates are re-drawn and the shapes
@@ -78,8 +95,15 @@ FAMILIES = {
     "area": [("m2", [_u("metre", None, None, "2")]), ("m2_c", [_u("m2", "centi")]), ("m2_x20", [_u("metre", None, "20", "2")]),
              ("half_m2", [_u("m2", None, "0.5")])],
 }
-UNITS_DEF = {n: d for fam in FAMILIES.values() for n, d in fam if d is not None}
-FAMILY_OF = {n: f for f, lst in FAMILIES.items() for n, _ in lst}
+# families only used when a known finding is planted: a unit child carrying BOTH a prefix and an exponent other than 1
+# (Units::scalingFactor applies the prefix without the exponent: C03-prefix-with-exponent-scaling)
+PLANT_FAMILIES = {
+    "volume": [("m3", [_u("metre", None, None, "3")]), ("mm3", [_u("metre", "milli", None, "3")]),
+               ("dm3", [_u("metre", "deci", None, "3")]), ("cm3_x2", [_u("metre", "centi", "2", "3")])],
+}
+ALL_FAMILIES = dict(FAMILIES, **PLANT_FAMILIES)
+UNITS_DEF = {n: d for fam in ALL_FAMILIES.values() for n, d in fam if d is not None}
+FAMILY_OF = {n: f for f, lst in ALL_FAMILIES.items() for n, _ in lst}
 
 MATHML_TO_AST = {
     "plus": "PLUS", "minus": "MINUS", "times": "TIMES", "divide": "DIVIDE", "power": "POWER", "root": "ROOT", "abs": "ABS",
@@ -101,7 +125,23 @@ DOMAIN = {"ln": "pos", "log": "pos", "root": "pos", "exp": "small", "sinh": "sma
 
 PLANTS = ["C03-not-operand", "C03-relational-operand", "C03-divide-by-negated-product", "C03-python-nested-conditional",
           "C03-double-minus", "C03-unary-plus-drops-parentheses", "C03-logbase-quotient", "C03-uppercase-exponent",
-          "C03-state-on-rhs-of-own-ode", "C03-known-variable-on-lhs-not-scaled", "C03-bare-rate-on-rhs-voi-scaling"]
+          "C03-state-on-rhs-of-own-ode", "C03-known-variable-on-lhs-not-scaled", "C03-bare-rate-on-rhs-voi-scaling",
+          "C03-initial-value-reference-order", "C03-initial-value-reference-not-scaled", "C03-rate-used-before-computed",
+          "C03-prefix-with-exponent-scaling"]
+
+# syntactic positions in which a reference to a SCALED variable (a <ci> whose units differ in scale from the units of
+# its equivalence class' primary variable, so that the analyser must insert a factor) is generated and counted
+# (meta["scaled_positions"], summed into the evidence).  BOOST_KINDS can be requested through generate(positions=...).
+BOOST_KINDS = ["diff:on_rhs", "operand:plus", "operand:minus", "operand:times", "operand:divide", "operand:unary_minus", "operand:unary_plus",
+               "operand:relational", "operand:logical", "operand:not", "arg:power_base", "arg:power_exponent",
+               "arg:root_radicand", "qualifier:degree", "arg:log_ln_exp", "qualifier:logbase", "arg:trig",
+               "arg:abs_floor_ceiling", "arg:min_max_rem", "piecewise:value", "piecewise:condition", "piecewise:otherwise",
+               "bare:rhs", "nested:unary_minus_in_function", "initial_value:reference"]
+POSITION_KINDS = BOOST_KINDS[1:-2] + [
+    "within:degree", "within:logbase", "within:power_exponent", "within:unary_minus", "within:piecewise_condition",
+    "within:function_argument", "in:ode_rhs", "in:algebraic_rhs", "in:nla_equation", "diff:bvar", "diff:state",
+    "diff:on_rhs", "initial_value:reference", "initial_value:holder_scaled"]
+EXPONENT_KINDS = ("arg:power_exponent", "qualifier:degree", "qualifier:logbase")
 
 
 # --------------------------------------------------------------------------- text forms
@@ -416,6 +456,114 @@ def model_equation_asts(desc, res, primaries):
     return out
 
 
+_TRIG_SET = None
+
+
+def _immediate_kind(op, idx, nargs):
+    """position kind of argument idx of MathML operator op (see POSITION_KINDS)"""
+    if op in ("plus", "minus") and nargs == 1:
+        return "operand:unary_" + op
+    if op in ("plus", "minus", "times", "divide"):
+        return "operand:" + op
+    if op in ("eq", "neq", "lt", "leq", "gt", "geq"):
+        return "operand:relational"
+    if op in ("and", "or", "xor"):
+        return "operand:logical"
+    if op == "not":
+        return "operand:not"
+    if op == "power":
+        return "arg:power_base" if idx == 0 else "arg:power_exponent"
+    if op == "root":
+        return "arg:root_radicand"
+    if op in ("log", "ln", "exp"):
+        return "arg:log_ln_exp"
+    if op in ("abs", "floor", "ceiling"):
+        return "arg:abs_floor_ceiling"
+    if op in ("min", "max", "rem"):
+        return "arg:min_max_rem"
+    return "arg:trig"
+
+
+def scaled_positions(desc, res, primaries):
+    """{position kind: number of references to SCALED variables at that position} over the whole model.
+    A reference (a <ci>, the variables of a <diff>, a variable named by an initial_value) is scaled when the units
+    of the variable differ in scale from those of its class' primary variable (`primaries`, as for
+    model_equation_asts), i.e. exactly when Analyser::scaleEquationAst / Generator::generateInitialisationCode have to
+    insert a factor.  One reference counts once for its immediate position and once for every enclosing context."""
+    acc = {}
+
+    def hit(key):
+        acc[key] = acc.get(key, 0) + 1
+
+    def scaled(comp, name):
+        key = (comp, name)
+        if key not in res.class_of:
+            return False
+        f = res.m(tuple(primaries[res.class_of[key]])) / res.m(key)
+        return abs(f - 1.0) > 1e-12
+
+    def walk(e, comp, imm, ctx, top):
+        t = e[0]
+        if t == "ci":
+            if scaled(comp, e[1]):
+                hit(imm)
+                for c in ctx:
+                    hit(c)
+            return
+        if t == "diff":
+            if not top:
+                if scaled(comp, e[2]) or scaled(comp, e[1]):
+                    hit("diff:on_rhs")
+            if scaled(comp, e[2]):
+                hit("diff:bvar")
+            if scaled(comp, e[1]):
+                hit("diff:state")
+            return
+        if t == "pw":
+            for v, c in e[1]:
+                walk(v, comp, "piecewise:value", ctx, False)
+                walk(c, comp, "piecewise:condition", ctx | {"within:piecewise_condition"}, False)
+            if e[2] is not None:
+                walk(e[2], comp, "piecewise:otherwise", ctx, False)
+            return
+        if t == "ap":
+            op, args = e[1], e[2]
+            q = e[3] if len(e) > 3 else None
+            inner = set(ctx)
+            if op not in ("plus", "minus", "times", "divide", "eq", "neq", "lt", "leq", "gt", "geq", "and", "or", "xor", "not"):
+                inner.add("within:function_argument")
+            if op == "minus" and len(args) == 1:
+                inner.add("within:unary_minus")
+            if q is not None:
+                qk = "degree" if op == "root" else "logbase"
+                walk(q, comp, "qualifier:" + qk, frozenset(inner | {"within:" + qk}), False)
+            for i, a in enumerate(args):
+                c2 = set(inner)
+                if op == "power" and i == 1:
+                    c2.add("within:power_exponent")
+                walk(a, comp, _immediate_kind(op, i, len(args)), frozenset(c2), False)
+
+    for rec in model_equation_asts(desc, res, primaries):
+        comp = rec["comp"]
+        where = {"ode": "in:ode_rhs", "alg": "in:algebraic_rhs", "nla": "in:nla_equation"}[rec["kind"]]
+        for side in (rec["lhs"], rec["rhs"]):
+            if rec["kind"] != "nla" and side is not rec["body"]:
+                if side[0] == "diff":
+                    walk(side, comp, None, frozenset(), True)
+                continue                                         # the defined variable itself
+            walk(side, comp, "bare:rhs", frozenset({where}), False)
+    for c in desc["components"]:
+        for v in c["variables"]:
+            iv = (v.get("initial_value") or "").strip()
+            if iv and (c["name"], iv) in res.class_of:
+                hit("initial_value:reference")
+                if scaled(c["name"], v["name"]):
+                    hit("initial_value:holder_scaled")
+                if scaled(c["name"], iv):
+                    hit("initial_value:referenced_scaled")
+    return acc
+
+
 def safety_query(mdl, asts, workdir, tag):
     """ask the extracted Coq model about every AST: list of dicts {safeC, safePy, sitesC, sitesPy (parsed ASTs), genC, genPy}"""
     if not asts:
@@ -453,7 +601,7 @@ class Budget(Exception):
 class ExprGen:
     """random expression over `leaves` = [(expr, value)], every node checked by the strict reference evaluator"""
 
-    def __init__(self, rng, leaves, env, ops, pure_names=(), allow_impure=False):
+    def __init__(self, rng, leaves, env, ops, pure_names=(), allow_impure=False, scaled_names=()):
         """pure_names: local variables that carry an initial_value; an exponent / degree may only mention those (and
         numbers), unless allow_impure (everything in the equation is dimensionless): Analyser::analyseEquationUnits
         dereferences a null AST child (SIGSEGV) when the value of an exponent is not available at analysis time and a
@@ -467,6 +615,8 @@ class ExprGen:
         self.pure_names = set(pure_names)
         self.allow_impure = allow_impure
         self.pure = 0
+        # references to scaled variables are preferred as leaves: every position of the tree should meet them
+        self.scaled_names = set(scaled_names)
 
     def value(self, e):
         return self.ev.ev(e, self.env)
@@ -496,6 +646,9 @@ class ExprGen:
         if self.pure:
             leaves = [l for l in leaves if l[0][0] == "ci" and l[0][1] in self.pure_names]
         if r < 0.6 and leaves:
+            sc = [l for l in leaves if l[0][0] == "ci" and l[0][1] in self.scaled_names]
+            if sc and rng.random() < 0.6:
+                return rng.choice(sc)[0]
             return rng.choice(leaves)[0]
         if r < 0.92:
             return self.cn()
@@ -748,8 +901,10 @@ class _Model:
         self.counter = 0
         self.mult = {}                # units name -> float multiplier
         base = {"name": "x", "units": [{"name": n, "unit": d} for n, d in UNITS_DEF.items()], "components": [], "connections": []}
+        self.multq = {}               # the same, exact where possible
         for n, m in matheval.units_multipliers(base).items():
             self.mult[n] = float(m)
+            self.multq[n] = m
 
     def new_name(self, stem):
         self.counter += 1
@@ -778,7 +933,7 @@ class _Model:
         second = allow_second and others and cl["members"][0][0] != ci and cl["kind"] != "voi" and rng.random() < 0.08
         if mem and not second:
             return rng.choice(mem)[1]
-        fam = FAMILIES[cl["family"]]
+        fam = ALL_FAMILIES[cl["family"]]
         prim_units = cl["members"][0][2]
         if rng.random() < scaled_prob:
             units = rng.choice([n for n, _ in fam if n != prim_units] or [prim_units])
@@ -787,6 +942,33 @@ class _Model:
         name = self.new_name(rng.choice(["p", "q", "w", "in_", "k_"]))
         # join to the primary (star) or to any other member (chain); never to a member of the same component
         tgt = others[0] if (rng.random() < 0.6 and others[0][0] != ci) else rng.choice(others)
+        self.add_member(k, ci, name, units)
+        self.conns.append([self.comps[tgt[0]]["name"], tgt[1], self.comps[ci]["name"], name])
+        return name
+
+    def is_scaled(self, ci, name):
+        """the local variable's units differ in scale from the units of the class' (predicted) primary variable"""
+        k = self.var_class[(ci, name)]
+        units = [m[2] for m in self.classes[k]["members"] if m[0] == ci and m[1] == name][0]
+        return abs(self.mult[self.classes[k]["members"][0][2]] / self.mult[units] - 1.0) > 1e-12
+
+    def scaled_local(self, k, ci):
+        """a member of class k in component ci whose units are SCALED relative to the primary's; None if impossible
+        (the primary itself lives in ci, or the family has no other scale)"""
+        cl = self.classes[k]
+        if cl["members"][0][0] == ci or cl["kind"] == "voi":
+            return None
+        for m in cl["members"]:
+            if m[0] == ci and self.is_scaled(ci, m[1]):
+                return m[1]
+        prim_units = cl["members"][0][2]
+        cand = [n for n, _ in ALL_FAMILIES[cl["family"]] if abs(self.mult[n] / self.mult[prim_units] - 1.0) > 1e-12]
+        if not cand:
+            return None
+        units = self.rng.choice(cand)
+        name = self.new_name(self.rng.choice(["p", "q", "w", "in_", "k_"]))
+        others = [m for m in cl["members"] if m[0] != ci]
+        tgt = others[0] if self.rng.random() < 0.6 else self.rng.choice(others)
         self.add_member(k, ci, name, units)
         self.conns.append([self.comps[tgt[0]]["name"], tgt[1], self.comps[ci]["name"], name])
         return name
@@ -840,15 +1022,17 @@ def _leaves(mdl_, ci, ks, rate_of=None):
     return out, env
 
 
-def generate(seed, mdl=None, workdir=None, unsafe_prob=0.15, nla_prob=0.08, max_tries=40, allowed_plants=None):
-    """see module docstring.  allowed_plants: finding ids that may be planted in unsafe models (default: all of PLANTS)"""
+def generate(seed, mdl=None, workdir=None, unsafe_prob=0.15, nla_prob=0.08, max_tries=40, allowed_plants=None, positions=None):
+    """see module docstring.  allowed_plants: finding ids that may be planted in unsafe models (default: all of PLANTS).
+    positions: BOOST_KINDS for which one extra equation (or initial value) with a reference to a scaled variable at
+    exactly that syntactic position is added (default: two kinds drawn at random)"""
     master = random.Random(seed)
     last = None
     for attempt in range(max_tries):
         sub = master.getrandbits(48)
         try:
             out = _generate_once(sub, mdl, workdir, unsafe_prob, nla_prob, "%s_%d" % (seed, attempt),
-                                 set(PLANTS if allowed_plants is None else allowed_plants))
+                                 set(PLANTS if allowed_plants is None else allowed_plants), positions)
         except (Budget, matheval.EvalError, matheval.Hazard) as ex:
             last = ex
             continue
@@ -859,14 +1043,34 @@ def generate(seed, mdl=None, workdir=None, unsafe_prob=0.15, nla_prob=0.08, max_
     raise RuntimeError("mathmodel_gen: no tame model after %d attempts for seed %r (%r)" % (max_tries, seed, last))
 
 
-def _generate_once(seed, mdl, workdir, unsafe_prob, nla_prob, tag, allowed):
+def _is_number(text):
+    try:
+        matheval.number(text)
+        return True
+    except Exception:
+        return False
+
+
+def _terminating(fr):
+    d = Fraction(fr).denominator
+    for q in (2, 5):
+        while d % q == 0:
+            d //= q
+    return d == 1
+
+
+def _generate_once(seed, mdl, workdir, unsafe_prob, nla_prob, tag, allowed, positions=None):
     rng = random.Random(seed)
     M = _Model(rng)
+    if positions is None:
+        positions = rng.sample(BOOST_KINDS, 2)
+    positions = list(positions)
+    boosted = {}
     ops = ops_extra = {}
     ncomp = rng.choice([2, 2, 3, 3, 3, 4])
     M.comps = [{"name": "c%d_%s" % (i, rng.choice(["env", "membrane", "gate", "pool", "main", "aux"])), "variables": [], "equations": []}
                for i in range(ncomp)]
-    has_ode = rng.random() < 0.75
+    has_ode = rng.random() < 0.75 or "diff:on_rhs" in positions
     want_nla = rng.random() < nla_prob
     unsafe = rng.random() < unsafe_prob
     planted = []
@@ -875,6 +1079,7 @@ def _generate_once(seed, mdl, workdir, unsafe_prob, nla_prob, tag, allowed):
     # ---- voi and states
     voi_k = None
     states = []
+    pre_consts = []
     if has_ode:
         nst = rng.choice([1, 1, 2, 2, 3])
         homes = [rng.randrange(ncomp) for _ in range(nst)]
@@ -905,7 +1110,16 @@ def _generate_once(seed, mdl, workdir, unsafe_prob, nla_prob, tag, allowed):
                 units2 = rng.choice([n for n, _ in FAMILIES[fam]])
                 name2 = M.new_name("init_")
                 M.add_member(k, ci, name, units)                       # ODE variable first: it is the primary
-                M.add_member(k, cj, name2, units2, initial_value_text(rng, iv))
+                ivtext = initial_value_text(rng, iv)
+                if rng.random() < 0.5:
+                    # ... given as the NAME of a constant of that component, declared before it, in the same units
+                    c0 = M.new_name("c0_")
+                    k0 = M.new_class(fam, "constant")
+                    M.add_member(k0, cj, c0, units2, ivtext)
+                    M.classes[k0]["q"] = float(iv) * M.mult[units2]
+                    pre_consts.append(k0)
+                    ivtext = c0
+                M.add_member(k, cj, name2, units2, ivtext)
                 M.conns.append([M.comps[ci]["name"], name, M.comps[cj]["name"], name2])
                 M.classes[k]["q"] = float(iv) * M.mult[units2]
             else:
@@ -915,6 +1129,7 @@ def _generate_once(seed, mdl, workdir, unsafe_prob, nla_prob, tag, allowed):
 
     # ---- constants
     consts = []
+    vol_classes = []
     for _ in range(rng.choice([2, 3, 3, 4, 5])):
         ci = rng.randrange(ncomp)
         fam = rng.choice(list(FAMILIES))
@@ -930,6 +1145,75 @@ def _generate_once(seed, mdl, workdir, unsafe_prob, nla_prob, tag, allowed):
         M.add_member(k, ci, M.new_name(rng.choice(["a", "b", "g", "K"])), units, txt)
         M.classes[k]["q"] = float(iv) * M.mult[units]
         consts.append(k)
+    consts = pre_consts + consts
+    # at least two constants of the dimensionless family (dimensionless, percent, permille, dozen): equations over
+    # that family only may hold any variable inside exponents, degrees and logarithm bases
+    while sum(1 for k in consts if M.classes[k]["family"] == "dimless") < 2:
+        ci = rng.randrange(ncomp)
+        units = rng.choice([n for n, _ in FAMILIES["dimless"]])
+        k = M.new_class("dimless", "constant")
+        iv = abs(nice_number(rng, False, 1.2, 6.0)) + 1
+        M.add_member(k, ci, M.new_name(rng.choice(["n_", "h", "e_"])), units, dec_text(iv))
+        M.classes[k]["q"] = float(iv) * M.mult[units]
+        consts.append(k)
+
+    def init_by_reference(order_ok=True, referenced_scaled=False):
+        """a constant whose initial_value is the NAME of another variable of its component (same units)"""
+        ci = rng.randrange(ncomp)
+        fam = rng.choice([f for f in FAMILIES if not (f == "time" and has_ode)])
+        units = rng.choice([n for n, _ in FAMILIES[fam]])
+        iv = nice_number(rng)
+        ref = M.new_name("ref_")
+        kr = M.new_class(fam, "constant")
+        vname = M.new_name(rng.choice(["a", "b", "g"]))
+        kv = M.new_class(fam, "constant")
+        if referenced_scaled:
+            # the named variable is only a scaled view of a constant defined in another component
+            others = [j for j in range(ncomp) if j != ci]
+            if not others:
+                return False
+            up = rng.choice([n for n, _ in FAMILIES[fam] if abs(M.mult[n] / M.mult[units] - 1.0) > 1e-12] or [None])
+            if up is None:
+                return False
+            pv = Fraction(iv) * M.multq[units] / M.multq[up] if not isinstance(M.multq[units], float) and not isinstance(M.multq[up], float) else None
+            if pv is None or not _terminating(pv) or not (Fraction(1, 10000) <= abs(pv) <= 10 ** 6):
+                return False
+            cj = rng.choice(others)
+            prim = M.new_name("K")
+            M.add_member(kr, cj, prim, up, dec_text(pv))
+            M.add_member(kr, ci, ref, units)
+            M.conns.append([M.comps[cj]["name"], prim, M.comps[ci]["name"], ref])
+            M.add_member(kv, ci, vname, units, ref)
+        elif order_ok:
+            M.add_member(kr, ci, ref, units, initial_value_text(rng, iv))
+            M.add_member(kv, ci, vname, units, ref)
+        else:
+            M.add_member(kv, ci, vname, units, ref)                        # named before it is declared
+            M.add_member(kr, ci, ref, units, initial_value_text(rng, iv))
+        M.classes[kr]["q"] = float(iv) * M.mult[units]
+        M.classes[kv]["q"] = float(iv) * M.mult[units]
+        consts.extend([kr, kv])
+        return True
+
+    if "initial_value:reference" in positions or rng.random() < 0.25:
+        if init_by_reference():
+            boosted["initial_value:reference"] = boosted.get("initial_value:reference", 0) + 1
+    if unsafe and "C03-initial-value-reference-order" in allowed and rng.random() < 0.2:
+        if init_by_reference(order_ok=False):
+            planted.append("C03-initial-value-reference-order")
+    if unsafe and "C03-initial-value-reference-not-scaled" in allowed and rng.random() < 0.2:
+        if init_by_reference(referenced_scaled=True):
+            planted.append("C03-initial-value-reference-not-scaled")
+    if unsafe and "C03-prefix-with-exponent-scaling" in allowed and rng.random() < 0.2 and ncomp > 1:
+        # a constant in cubic metres; its views in other components are in mm3 / dm3 / 2 cm3 (prefix AND exponent)
+        ci = rng.randrange(ncomp)
+        k = M.new_class("volume", "constant")
+        iv = nice_number(rng, False)
+        M.add_member(k, ci, M.new_name("vol"), "m3", initial_value_text(rng, iv))
+        M.classes[k]["q"] = float(iv) * M.mult["m3"]
+        consts.append(k)
+        vol_classes.append(k)
+        planted.append("C03-prefix-with-exponent-scaling")
 
     plant_queue = []
     if unsafe:
@@ -942,9 +1226,14 @@ def _generate_once(seed, mdl, workdir, unsafe_prob, nla_prob, tag, allowed):
         env = dict(lv[1])
         env.update(extra_env or {})
         local = {v["name"]: v for v in M.comps[ci]["variables"]}
-        pure = [n for n in lv[1] if local[n].get("initial_value")]
-        impure_ok = lhs_units == "dimensionless" and not extra_leaves and all(local[n]["units"] == "dimensionless" for n in lv[1])
-        g = ExprGen(rng, leaves, env, ops, pure, impure_ok)
+        # an exponent / degree may only mention variables with a NUMERIC initial value (Analyser::powerValue calls
+        # std::stod on the initial_value text, also when it is the name of a variable) ...
+        pure = [n for n in lv[1] if local[n].get("initial_value") and _is_number(local[n]["initial_value"])]
+        # ... unless every quantity of the equation has a dimensionless units map (dimensionless, percent, permille,
+        # dozen): then the null dereference in analyseEquationUnits cannot be reached
+        impure_ok = (lhs_units is not None and FAMILY_OF.get(lhs_units) == "dimless" and not extra_leaves
+                     and all(FAMILY_OF.get(local[n]["units"]) == "dimless" for n in lv[1]))
+        g = ExprGen(rng, leaves, env, ops, pure, impure_ok, [n for n in lv[1] if M.is_scaled(ci, n)])
         if plant_id is not None:
             e = plant(plant_id, g, rng)
             if e is not None and rng.random() < 0.5:
@@ -1009,14 +1298,22 @@ def _generate_once(seed, mdl, workdir, unsafe_prob, nla_prob, tag, allowed):
             fam = "dimless"
         units = rng.choice([n for n, _ in FAMILIES[fam]])
         pool = list(defined)
-        want_dyn = dynamic and rng.random() < 0.55
+        dyn_pool = list(dynamic)
+        if rng.random() < 0.3:
+            # an equation over the dimensionless family only: variables (also scaled ones: percent, permille, dozen)
+            # may then sit inside exponents, degrees and logarithm bases
+            fam = "dimless"
+            units = rng.choice([n for n, _ in FAMILIES[fam]])
+            pool = [k for k in defined if M.classes[k]["family"] == "dimless"]
+            dyn_pool = [k for k in dynamic if M.classes[k]["family"] == "dimless"]
+        want_dyn = dyn_pool and rng.random() < 0.55
         ks = []
         if want_dyn:
-            cand = [k for k in dynamic if k != voi_k or any(m[0] == ci for m in M.classes[voi_k]["members"])]
+            cand = [k for k in dyn_pool if k != voi_k or any(m[0] == ci for m in M.classes[voi_k]["members"])]
             if cand:
                 ks.append(rng.choice(cand))
         for _ in range(rng.choice([1, 2, 2, 3])):
-            k = rng.choice(pool + [k2 for k2 in dynamic if k2 != voi_k])
+            k = rng.choice(pool + [k2 for k2 in dyn_pool if k2 != voi_k])
             if k not in ks:
                 ks.append(k)
         ks = [k for k in ks if k != voi_k or any(m[0] == ci for m in M.classes[voi_k]["members"])]
@@ -1051,6 +1348,167 @@ def _generate_once(seed, mdl, workdir, unsafe_prob, nla_prob, tag, allowed):
         if any(k2 in dynamic for k2 in ks):
             dynamic.append(k)
 
+    # ---- one equation per requested position kind, with a reference to a SCALED variable exactly there
+    def boost(kind):
+        nonlocal unsafe
+        if kind in ("initial_value:reference", "diff:on_rhs"):
+            return True                                      # handled with the constants / after the ODEs
+        if kind == "operand:not" and not unsafe:
+            # not(s) with a scaled s is printed "!f*s" by the C profile (C03-not-operand): an unsafe model by design
+            if "C03-not-operand" not in allowed:
+                return False
+            unsafe = True
+        for _attempt in range(10):
+            ci = rng.randrange(ncomp)
+            dimless_only = kind in EXPONENT_KINDS or rng.random() < 0.3
+            fams = ["dimless"] if dimless_only else [f for f in FAMILIES if not (f == "time" and has_ode)]
+            src = None
+            if rng.random() < 0.4:
+                # a view of an existing quantity (constant, computed or algebraic variable, state)
+                cands = [k for k in defined + [st[0] for st in states] if M.classes[k]["family"] in fams]
+                rng.shuffle(cands)
+                for k in cands[:4]:
+                    sname = M.scaled_local(k, ci)
+                    if sname is not None:
+                        src = (k, sname)
+                        break
+            if src is None:
+                # a fresh constant defined in another component, seen here in units of another scale, with a tame value
+                if ncomp < 2:
+                    return False
+                fam = rng.choice(fams)
+                names = [n for n, _ in FAMILIES[fam]]
+                up, us = rng.sample(names, 2)
+                if abs(M.mult[up] / M.mult[us] - 1.0) <= 1e-12 or isinstance(M.multq[up], float) or isinstance(M.multq[us], float):
+                    continue
+                vs = Fraction(rng.choice([15, 20, 25, 30, 35, 40, 45]), 10)
+                pv = vs * M.multq[us] / M.multq[up]
+                if not _terminating(pv) or not (Fraction(1, 10000) <= pv <= 10 ** 6):
+                    continue
+                cj = rng.choice([j for j in range(ncomp) if j != ci])
+                k = M.new_class(fam, "constant")
+                M.add_member(k, cj, M.new_name(rng.choice(["a", "b", "g", "K"])), up, dec_text(pv))
+                M.classes[k]["q"] = float(pv) * M.mult[up]
+                sname = M.new_name(rng.choice(["p", "q", "w", "in_", "k_"]))
+                M.add_member(k, ci, sname, us)
+                M.conns.append([M.comps[cj]["name"], M.classes[k]["members"][0][1], M.comps[ci]["name"], sname])
+                consts.append(k)
+                defined.append(k)
+                src = (k, sname)
+            k, sname = src
+            sv = M.value(ci, sname)
+            S = ("ci", sname)
+            g = ExprGen(rng, [(S, sv)], {sname: sv}, ops, (), dimless_only, [sname])
+            g0 = ExprGen(rng, [], {}, ops)                    # operands without variables
+
+            def make():
+                A = lambda: g0.gen(rng.choice([0, 0, 1]))
+                Bc = lambda: ("ap", rng.choice(["lt", "gt", "leq", "geq", "neq"]), [A(), A()], None)
+
+                def fit(dom):
+                    x = g.adapt(S, dom)
+                    if x is None:
+                        raise matheval.Hazard("no fit")
+                    return x
+                if kind == "operand:plus":
+                    args = [A(), S] + ([A()] if rng.random() < 0.3 else [])
+                    rng.shuffle(args)
+                    e = ("ap", "plus", args, None)
+                elif kind == "operand:minus":
+                    args = [A(), S]
+                    rng.shuffle(args)
+                    e = ("ap", "minus", args, None)
+                elif kind == "operand:times":
+                    args = [A(), S] + ([A()] if rng.random() < 0.3 else [])
+                    rng.shuffle(args)
+                    e = ("ap", "times", args, None)
+                elif kind == "operand:divide":
+                    e = ("ap", "divide", [A(), fit("nz")], None) if rng.random() < 0.6 else ("ap", "divide", [S, g0.adapt(A(), "nz")], None)
+                elif kind == "operand:unary_minus":
+                    e = ("ap", "minus", [S], None)
+                    if rng.random() < 0.5:
+                        e = ("ap", rng.choice(["plus", "times"]), [A(), e], None)
+                elif kind == "operand:unary_plus":
+                    e = ("ap", rng.choice(["minus", "plus"]), [A(), ("ap", "plus", [S], None)], None)
+                elif kind == "operand:relational":
+                    args = [S, A()]
+                    rng.shuffle(args)
+                    e = ("ap", rng.choice(["lt", "gt", "leq", "geq", "neq", "eq"]), args, None)
+                elif kind == "operand:logical":
+                    args = [S, Bc()]
+                    rng.shuffle(args)
+                    e = ("ap", rng.choice(["and", "or", "xor"]), args, None)
+                elif kind == "operand:not":
+                    e = ("ap", "not", [S], None)
+                elif kind == "arg:power_base":
+                    e = ("ap", "power", [fit("pos"), rng.choice([("cn", "2", "dimensionless"), ("cn", "3", "dimensionless"), g0.cn(Fraction(3, 2))])], None)
+                elif kind == "arg:power_exponent":
+                    ex = S if abs(sv) <= 4.5 else ("ap", "divide", [S, g0.cn(Fraction(int(abs(sv) // 2) + 1))], None)
+                    e = ("ap", "power", [g0.adapt(A(), "pos"), ex], None)
+                elif kind == "arg:root_radicand":
+                    e = ("ap", "root", [fit("pos")], g0.cn(Fraction(3)) if rng.random() < 0.3 else None)
+                elif kind == "qualifier:degree":
+                    e = ("ap", "root", [g0.adapt(A(), "pos")], fit("gt1"))
+                elif kind == "arg:log_ln_exp":
+                    op = rng.choice(["ln", "log", "exp"])
+                    e = ("ap", op, [fit(DOMAIN[op])], None)
+                elif kind == "qualifier:logbase":
+                    e = ("ap", "log", [g0.adapt(A(), "pos")], fit("gt1"))
+                elif kind == "arg:trig":
+                    op = rng.choice(TRIG)
+                    e = ("ap", op, [fit(DOMAIN[op])], None)
+                elif kind == "arg:abs_floor_ceiling":
+                    e = ("ap", rng.choice(["abs", "floor", "ceiling"]), [S], None)
+                elif kind == "arg:min_max_rem":
+                    op = rng.choice(["min", "max", "rem"])
+                    if op == "rem":
+                        e = ("ap", "rem", [S, g0.adapt(A(), "nz")], None) if rng.random() < 0.5 else ("ap", "rem", [A(), fit("nz")], None)
+                    else:
+                        args = [S, A()] + ([A()] if rng.random() < 0.3 else [])
+                        rng.shuffle(args)
+                        e = ("ap", op, args, None)
+                elif kind == "piecewise:value":
+                    e = ("pw", [[S, Bc()]], A())
+                elif kind == "piecewise:condition":
+                    e = ("pw", [[A(), S]], A())
+                elif kind == "piecewise:otherwise":
+                    e = ("pw", [[A(), Bc()]], S)
+                elif kind == "bare:rhs":
+                    e = S
+                elif kind == "nested:unary_minus_in_function":
+                    op = rng.choice(["sin", "cos", "arctan", "abs", "exp", "tanh"])
+                    inner = ("ap", "minus", [S], None)
+                    x = g.adapt(inner, DOMAIN.get(op, "any"))
+                    if x is None:
+                        raise matheval.Hazard("no fit")
+                    e = ("ap", op, [x], None)
+                else:
+                    raise ValueError(kind)
+                if kind not in ("bare:rhs", "operand:not") and rng.random() < 0.3:
+                    e = ("ap", rng.choice(["plus", "times"]), [A(), e], None)
+                return e, g.value(e)
+            fam_l = "dimless" if dimless_only else rng.choice([f for f in FAMILIES if not (f == "time" and has_ode)])
+            units = rng.choice([n for n, _ in FAMILIES[fam_l]])
+            try:
+                rhs, val = pick_safe(ci, "alg", make, lambda e: scaled_ast_of(ci, e))
+            except (matheval.Hazard, matheval.EvalError, Budget):
+                continue
+            kk = M.new_class(fam_l, "computed")
+            M.add_member(kk, ci, M.new_name(rng.choice(["y", "z", "m", "u_"])), units)
+            M.classes[kk]["q"] = val * M.mult[units]
+            M.comps[ci]["equations"].append((("ci", M.classes[kk]["members"][0][1]), rhs))
+            defined.append(kk)
+            if k in dynamic:
+                dynamic.append(kk)
+            if kind == "operand:not":
+                planted.append("C03-not-operand")
+            return True
+        return False
+
+    for kind in positions:
+        if boost(kind):
+            boosted[kind] = boosted.get(kind, 0) + 1
+
     # ---- ODEs
     for (k, ci, name) in states:
         tname = [m[1] for m in M.classes[voi_k]["members"] if m[0] == ci][0]
@@ -1079,11 +1537,31 @@ def _generate_once(seed, mdl, workdir, unsafe_prob, nla_prob, tag, allowed):
         M.classes[k]["rate"] = val * M.mult[units_x] / M.mult[units_t]
         M.comps[ci]["equations"].append((lhs, rhs))
 
+    # ---- planted: the rate of one state used in the ODE of another (computeRates emits the ODEs in index order, so
+    # the rate may be read before it is assigned: C03-rate-used-before-computed)
+    if unsafe and len(states) >= 2 and "C03-rate-used-before-computed" in allowed and rng.random() < 0.3:
+        (ka, cia, na), (kb, _cib, _nb) = rng.sample(states, 2)
+        ta = [m for m in M.classes[voi_k]["members"] if m[0] == cia][0]
+        xb = M.local(kb, cia)
+        uxb = [m[2] for m in M.classes[kb]["members"] if m[0] == cia and m[1] == xb][0]
+        uxa = [m[2] for m in M.classes[ka]["members"] if m[0] == cia and m[1] == na][0]
+        rate_b_local = M.classes[kb]["rate"] * M.mult[ta[2]] / M.mult[uxb]
+        cf = abs(nice_number(rng, False))
+        eqs_a = M.comps[cia]["equations"]
+        for i, (l, r) in enumerate(eqs_a):
+            if l == ("diff", na, ta[1]):
+                d = ("diff", xb, ta[1])
+                eqs_a[i] = (l, ("ap", "plus", [r, ("ap", "times", [cn_variants(rng, cf) + ("dimensionless",), d], None)], None))
+                M.classes[ka]["rate"] += float(cf) * rate_b_local * M.mult[uxa] / M.mult[ta[2]]
+                planted.append("C03-rate-used-before-computed")
+                break
+
     # ---- the rate of a state used on a right-hand side (rare)
-    if has_ode and rng.random() < 0.10:
+    if has_ode and (rng.random() < 0.10 or "diff:on_rhs" in positions):
         k = rng.choice(states)[0]
         ci = rng.choice(sorted({m[0] for m in M.classes[voi_k]["members"]}))
-        xn = M.local(k, ci)
+        # preferably through a view of the state in units of another scale
+        xn = M.scaled_local(k, ci) or M.local(k, ci)
         tn = [m[1] for m in M.classes[voi_k]["members"] if m[0] == ci][0]
         ux = [m[2] for m in M.classes[k]["members"] if m[0] == ci and m[1] == xn][0]
         ut = [m[2] for m in M.classes[voi_k]["members"] if m[0] == ci and m[1] == tn][0]
@@ -1165,6 +1643,18 @@ def _generate_once(seed, mdl, workdir, unsafe_prob, nla_prob, tag, allowed):
                     M.comps[ci]["variables"][-2]["initial_value"] = dec_text(x0 + Fraction(1, 10))
                 eqs = [(("ap", "plus", [("ap", "times", [ci_(xn), ci_(xn)], None), ci_(yn)], None), cnf(x0 * x0 + y0)),
                        (("ap", "minus", [ci_(xn), ci_(yn)], None), cnf(x0 - y0))]
+        # a known quantity, seen in units of another scale, added on both sides of the first equation: the solution
+        # stays the same and the analyser has to scale a reference inside an NLA equation
+        wn = None
+        cands = [k2 for k2 in consts if M.classes[k2]["members"][0][0] != ci and k2 not in vol_classes]
+        rng.shuffle(cands)
+        for k2 in cands[:4]:
+            wn = M.scaled_local(k2, ci)
+            if wn is not None:
+                break
+        if wn is not None:
+            l0, r0 = eqs[0]
+            eqs[0] = (("ap", "plus", [l0, ("ci", wn)], None), ("ap", "plus", [r0, ("ci", wn)], None))
         for l, r in eqs:
             M.comps[ci]["equations"].append((l, r))
         n_nla = 1
@@ -1211,7 +1701,8 @@ def _generate_once(seed, mdl, workdir, unsafe_prob, nla_prob, tag, allowed):
     meta = {"voi": voi_value, "unsafe": unsafe, "planted": planted, "nla": n_nla, "scaled_connections": nscaled,
             "components": len(desc["components"]), "ops": ops, "has_ode": has_ode, "states": len(states),
             "equations": sum(len(c["equations"]) for c in desc["components"]), "nested_equations": nested,
-            "unfiltered": mdl is None}
+            "unfiltered": mdl is None, "positions_requested": positions, "positions_boosted": boosted,
+            "scaled_positions": scaled_positions(desc, res, predicted_primaries(desc, res))}
     return {"desc": desc, "xml": to_xml(desc), "meta": meta}
 
 
@@ -1283,7 +1774,7 @@ def stable(desc, res, voi_value, rng, eps=1e-12, tol=1e-10):
         vs = []
         for v in c["variables"]:
             v = dict(v)
-            if v.get("initial_value"):
+            if v.get("initial_value") and _is_number(v["initial_value"]):
                 x = matheval.number(v["initial_value"])
                 if x != 0.0:
                     v["initial_value"] = repr(x * (1.0 + eps * prng.choice([-1.0, 1.0])))
